@@ -49,11 +49,17 @@ pub const FC_POP_NEXT: u32 = 52;
 pub const FC_POP_CAS: u32 = 53;
 pub const FC_POP_COUNT: u32 = 54;
 pub const FC_SPLIT_PEEK: u32 = 55;
+/// `FixedCapacityMemoryPool::allocate`: after `active_blocks` was incremented, before the derived
+/// utilization gauge is stored
+pub const FC_ALLOC_UTIL: u32 = 56;
 /// fixed_capacity_pool.rs `deallocate_to_free_list`
 pub const FC_PUSH_LOAD: u32 = 61;
 pub const FC_PUSH_NEXT: u32 = 62;
 pub const FC_PUSH_CAS: u32 = 63;
 pub const FC_PUSH_COUNT: u32 = 64;
+/// `FixedCapacityMemoryPool::deallocate`: after `active_blocks` was decremented, before the derived
+/// utilization gauge is stored
+pub const FC_FREE_UTIL: u32 = 66;
 /// secure_pool.rs `LockFreeStack::pop`
 pub const SP_POP_LOAD: u32 = 71;
 pub const SP_POP_NEXT: u32 = 72;
